@@ -59,6 +59,18 @@ def _req():
     return out
 
 
+def _cls_i2s(r):
+    g = r.get("got")
+    st = g.get("st", "?") if isinstance(g, dict) and "panic" not in g else "panic"
+    out = ["%s/%s" % (r.get("op"), st)]
+    if r.get("via") == "text":
+        out.append("%s/table-read-from-text" % r.get("op"))
+    if r.get("op") == "nest_jar" and isinstance(g, dict) and g.get("st") == "ok":
+        depth = max([k.count("$") for k in g.get("names", {})] + [0])
+        out.append("nest_jar/deepest-name-%d-dollars" % depth)
+    return out
+
+
 def _alts(e):
     return e["anyof"] if isinstance(e, dict) and "anyof" in e else [e]
 
@@ -201,6 +213,7 @@ P = {
     "trace_s2i": 300,
     "i2s_n": {"quick": 300, "thorough": 3000},
     "classify_vec": _cls,
+    "classify_i2s": _cls_i2s,
     "required_classes": _req(),
     "signature": _sig,
     "corrupt": _corrupt,
